@@ -126,6 +126,12 @@ pub fn plan_for(prop: &str, tier: Tier, kind: Kind) -> Plan {
             };
             p.g3 = vec![];
         }
+        "C02" | "C15" => {
+            // chains / 128-config sweeps are expensive per buffer: long fields only sparsely
+            if tier >= Tier::Quick {
+                p.g3_long = Some((if tier == Tier::Quick { vec![66, 130, 162] } else { vec![66, 97, 130, 162, 200, 260] }, vec![0x7F, 0x1F, 0x80], if tier == Tier::Quick { 7 } else { 3 }));
+            }
+        }
         "C11" => {
             p.prefixes = 400;
             p.g5 /= 8;
